@@ -305,7 +305,6 @@ Theorem C10_edit_solid_logical :
    decompress c (concat (compress c lvl ws)) = Ok (concat ws)) ->
   (forall (c : compression) (lvl : N) (ws ws' : list bytes),
    concat ws = concat ws' -> concat (compress c lvl ws) = concat (compress c lvl ws')) ->
-  compress_small compress ->
   forall (lvl : N) (ctx : cctx),
   strict_ctx ctx ->
   forall pw : bytes,
@@ -350,7 +349,6 @@ Check C10_edit_solid_logical :
    decompress c (concat (compress c lvl ws)) = Ok (concat ws)) ->
   (forall (c : compression) (lvl : N) (ws ws' : list bytes),
    concat ws = concat ws' -> concat (compress c lvl ws) = concat (compress c lvl ws')) ->
-  compress_small compress ->
   forall (lvl : N) (ctx : cctx),
   strict_ctx ctx ->
   forall pw : bytes,
